@@ -35,6 +35,8 @@ class JCtx:
         self.prims_seen = set()
         self.fresh = 0
         self.gather_in_bounds_domain = True
+        self.index_domain = []
+        self.oob_seen = False
         self.violated = False  # a concrete input left the JAX domain (self-validation vectors)
 
     def assume(self, cond):
@@ -43,6 +45,15 @@ class JCtx:
             self.domain.append(cond)
         elif not cond:
             self.violated = True
+
+    def assume_index(self, cond):
+        """index-in-bounds predicate (kept separately: phase B of the pipeline drops these to look
+        for SILENT differences where JAX clamps/fills and the model does something else)"""
+        if S.is_sym(cond):
+            self.index_domain.append(cond)
+        elif not cond:
+            self.violated = True
+            self.oob_seen = True
 
     def fresh_val(self, tag, kind):
         self.fresh += 1
@@ -724,6 +735,8 @@ def _dynamic_slice(ctx, eqn, ins):
     x = ins[0]
     starts = [t.a.reshape(-1)[0] for t in ins[1:]]
     sizes = [int(s) for s in eqn.params["slice_sizes"]]
+    for d, s in enumerate(starts):
+        ctx.assume_index(S.b_and(S.c_ge(s, 0, "i"), S.c_le(s, x.shape[d] - sizes[d], "i")))
     cl = [_clamp_start(ctx, s, 0, x.shape[d] - sizes[d]) for d, s in enumerate(starts)]
     out = np.empty(tuple(sizes), dtype=object)
     for ii in np.ndindex(*sizes):
@@ -741,6 +754,8 @@ def _dynamic_slice(ctx, eqn, ins):
 def _dus(ctx, eqn, ins):
     x, upd = ins[0], ins[1]
     starts = [t.a.reshape(-1)[0] for t in ins[2:]]
+    for d, s in enumerate(starts):
+        ctx.assume_index(S.b_and(S.c_ge(s, 0, "i"), S.c_le(s, x.shape[d] - upd.shape[d], "i")))
     cl = [_clamp_start(ctx, s, 0, x.shape[d] - upd.shape[d]) for d, s in enumerate(starts)]
     if all(not S.is_sym(c) for c in cl):
         out = x.a.copy()
@@ -828,7 +843,7 @@ def _gather(ctx, eqn, ins):
             if d in sim:
                 c = S.b_and(S.c_ge(s, 0, "i"), S.c_le(s, hi, "i"))
                 if ctx.gather_in_bounds_domain:
-                    ctx.assume(c)  # in-domain input: indices in bounds (JAX's clamp/fill not exercised)
+                    ctx.assume_index(c)  # in-domain input: indices in bounds (JAX's clamp/fill not exercised)
                 if mode == "FILL_OR_DROP":
                     inb = S.b_and(inb, c)
             cs = _clamp_start(ctx, s, 0, hi) if (d in sim) else s
@@ -881,7 +896,7 @@ def _scatter_impl(ctx, eqn, ins, comb):
                 elif mode == "FILL_OR_DROP":
                     c = S.b_and(S.c_ge(s, 0, "i"), S.c_le(s, hi, "i"))
                     if ctx.gather_in_bounds_domain:
-                        ctx.assume(c)
+                        ctx.assume_index(c)
                     valid = S.b_and(valid, c)
                 else:  # PROMISE_IN_BOUNDS: in-bounds is a domain predicate
                     ctx.assume(S.b_and(S.c_ge(s, 0, "i"), S.c_le(s, hi, "i")))
